@@ -18,7 +18,7 @@ use crate::spec::*;
 
 pub const TOP_FIELDS: &[&str] = &[
     "f1", "f2", "f3", "f1", "f2", "n1", "n2", "b1", "o1.x", "o1.y", "o1.p.q", "arr[0]", "arr[1]", "#h",
-    "two words", "z1", "o1.l[0]", "o1.l[1]",
+    "two words", "z1", "o1.l[0]", "o1.l[1]", "o1.l[1].x", "o1.two words",
 ];
 pub const NEST_HOLDERS: &[&str] = &["o1", "objs", "o1.p", "objs[0]", "o1", "objs", "o1.m[1]"];
 pub const INNER_FIELDS: &[&str] = &["x", "y", "n", "p.q", "x", "y"];
@@ -866,10 +866,84 @@ pub fn rule_same_field_focus() -> BoxedStrategy<RuleSpec> {
                 val: ValSpec::Str(n),
             }),
             1 => any::<bool>().prop_map(move |b| Entry { key: KeySpec::plain(field), val: ValSpec::Bool(b) }),
+            // lists of two or three members of one relation kind (batched into one automaton /
+            // regex set), plain, quantified or under str()
+            5 => (prop::collection::vec(("[ab15]{1,2}", 0u8..4), 2..=3), any::<bool>(), 0u8..6, any::<bool>()).prop_map(
+                move |(ms, ci, q, regex)| {
+                    let mut members: Vec<ValSpec> = ms
+                        .iter()
+                        .map(|(n, k)| {
+                            let t = if regex {
+                                format!("?{n}")
+                            } else {
+                                match k {
+                                    0 => n.clone(),
+                                    1 => format!("{n}*"),
+                                    2 => format!("*{n}"),
+                                    _ => format!("*{n}*"),
+                                }
+                            };
+                            ValSpec::Str(if ci { format!("i{t}") } else { t })
+                        })
+                        .collect();
+                    let modifier = match q {
+                        0 => KMod::All,
+                        1 => KMod::Of(2),
+                        2 => KMod::Str,
+                        _ => KMod::None,
+                    };
+                    // now and then an empty-string member joins the batch
+                    if !regex && ms.len() == 3 && ms[0].1 == 0 {
+                        members[0] = ValSpec::Str(if ci { "i".to_string() } else { "''".to_string() });
+                    }
+                    Entry { key: KeySpec { modifier, field: field.to_string() }, val: ValSpec::List(members) }
+                }
+            ),
         ]
     };
+    // the same entry with the case flag of every string member flipped: equal needles, other flag
+    fn case_twin(e: &Entry) -> Option<Entry> {
+        let flip = |t: &str| -> String {
+            match t.strip_prefix('i') {
+                Some(rest) if !rest.is_empty() => rest.to_string(),
+                _ => format!("i{t}"),
+            }
+        };
+        let val = match &e.val {
+            ValSpec::Str(t) => ValSpec::Str(flip(t)),
+            ValSpec::List(ms) => ValSpec::List(
+                ms.iter()
+                    .map(|m| match m {
+                        ValSpec::Str(t) => Some(ValSpec::Str(flip(t))),
+                        _ => None,
+                    })
+                    .collect::<Option<Vec<_>>>()?,
+            ),
+            _ => return None,
+        };
+        Some(Entry { key: e.key.clone(), val })
+    }
     (
-        prop::collection::vec((entry("f1"), prop::bool::weighted(0.15)), 3..=6),
+        prop::collection::vec((entry("f1"), prop::bool::weighted(0.15)), 3..=6).prop_flat_map(|es| {
+            (Just(es), any::<u8>(), any::<u8>())
+        }).prop_map(|(mut es, twin, at)| {
+            // now and then one entry gets its case twin as a further identifier
+            if twin % 3 != 2 && es.len() < 6 {
+                // lists first (a batch of its own with either flag), single patterns otherwise
+                let lists: Vec<usize> =
+                    es.iter().enumerate().filter(|(_, (e, _))| matches!(e.val, ValSpec::List(_))).map(|(i, _)| i).collect();
+                let i = if twin % 3 == 0 && !lists.is_empty() {
+                    lists[at as usize % lists.len()]
+                } else {
+                    at as usize % es.len()
+                };
+                if let Some(t) = case_twin(&es[i].0) {
+                    let pos = (at as usize / 7) % (es.len() + 1);
+                    es.insert(pos, (t, es[i].1));
+                }
+            }
+            es
+        }),
         0u8..10,
         any::<u8>(),
         0u64..=2,
@@ -879,11 +953,17 @@ pub fn rule_same_field_focus() -> BoxedStrategy<RuleSpec> {
             let idents: Vec<(String, Body)> = names
                 .iter()
                 .cloned()
-                .zip(entries.into_iter().map(|(e, as_seq)| {
-                    if as_seq {
-                        Body::Seq(vec![Block(vec![e])])
+                .zip(entries.iter().enumerate().map(|(i, (e, as_seq))| {
+                    if *as_seq {
+                        // a sequence of single-key mappings on the one field: this entry and its
+                        // neighbour
+                        let mut blocks = vec![Block(vec![e.clone()])];
+                        if let Some((next, _)) = entries.get(i + 1) {
+                            blocks.push(Block(vec![next.clone()]));
+                        }
+                        Body::Seq(blocks)
                     } else {
-                        Body::Map(Block(vec![e]))
+                        Body::Map(Block(vec![e.clone()]))
                     }
                 }))
                 .collect();
@@ -926,11 +1006,119 @@ pub fn rule_same_field_focus() -> BoxedStrategy<RuleSpec> {
 pub fn same_field_docs(field: &str) -> Vec<DObj> {
     let vals = vec![
         DocVal::s("a"), DocVal::s("ab"), DocVal::s("b"), DocVal::s("1"), DocVal::s("5"), DocVal::s("15"), DocVal::s("A"), DocVal::s("xbx"),
+        DocVal::s("AB"), DocVal::s("B"), DocVal::s("aB"), DocVal::s("XBX"), DocVal::s("b1"), DocVal::s("A5"),
         DocVal::s(""), DocVal::Int(1), DocVal::Int(5), DocVal::Int(-1), DocVal::Int(15), DocVal::UInt(1), DocVal::UInt(5), DocVal::UInt(51),
         DocVal::Float(1.0), DocVal::Float(1.5), DocVal::Bool(true), DocVal::Bool(false), DocVal::Null,
         DocVal::arr(vec![DocVal::s("a"), DocVal::Int(5)]), DocVal::arr(vec![]), DocVal::obj(vec![("x", DocVal::s("a"))]),
     ];
     std::iter::once(DObj::default()).chain(vals.into_iter().map(|v| DObj(vec![(field.to_string(), v)]))).collect()
+}
+
+/// Case twins: two identifiers on one field with equal needles, one case-sensitive and one
+/// case-insensitive (as single patterns, plain lists, quantified lists, lists under str()), next to
+/// an identifier that never matches and one that always does, under several connective shapes and
+/// in both orders. Returns (rule text with the sensitive twin first, the same with the insensitive
+/// twin first, documents).
+pub fn twin_rules() -> Vec<(String, String, Vec<DObj>)> {
+    let mut out = vec![];
+    let member_sets: Vec<(Vec<&str>, &str, &str)> = vec![
+        // (members, a text matching all of them, a text matching only some)
+        (vec!["*ab*", "*ba*"], "abba", "ab"),
+        (vec!["ab*", "*ba"], "abxba", "abx"),
+        (vec!["ab*", "*b*", "*ba"], "abba", "ab"),
+        (vec!["?ab", "?b+a"], "abba", "ab"),
+        (vec!["abba", "*bb*"], "abba", "xbbx"),
+    ];
+    let keys = ["f1", "all(f1)", "of(f1, 2)", "str(f1)", "of(f1, 1)"];
+    let conds = [
+        "N or X or Y", "X or Y or N", "X or N or Y", "T and X and Y", "X and Y and T", "(N or X) or (Y or N)", "N or (T and X and Y)",
+        "not (N or X or Y)", "T and (X or Y or N)", "all(X) or of(Y, 1) or N", "X or Y",
+        // an identifier that is both counted and used as it is
+        "X and not all(X)", "all(Y) or Y or N", "N or X or of(X, 2)", "Y and of(Y, 1) and T",
+    ];
+    for (members, full, part) in &member_sets {
+        for key in keys {
+            let list = |ci: bool| -> String {
+                members.iter().map(|m| format!("    - '{}{m}'\n", if ci { "i" } else { "" })).collect()
+            };
+            let docs: Vec<DObj> = [full.to_string(), full.to_uppercase(), part.to_string(), part.to_uppercase(), "zz".to_string()]
+                .into_iter()
+                .map(|t| DObj(vec![("f1".to_string(), DocVal::Str(t))]))
+                .chain(std::iter::once(DObj::default()))
+                .collect();
+            for cond in conds {
+                let mk = |first_ci: bool| {
+                    let (x, y) = (list(first_ci), list(!first_ci));
+                    format!(
+                        "detection:\n  X:\n    {key}:\n{x}  Y:\n    {key}:\n{y}  N:\n    f1: nomatch\n  T:\n    f1: '*'\n  condition: {cond}\ntrue_positives: []\ntrue_negatives: []\n"
+                    )
+                };
+                out.push((mk(false), mk(true), docs.clone()));
+            }
+        }
+    }
+    // single patterns as twins
+    for p in ["ab", "ab*", "*ab", "*ab*", "?ab"] {
+        let docs: Vec<DObj> = ["ab", "AB", "xabx", "XABX", "zz"]
+            .iter()
+            .map(|t| DObj(vec![("f1".to_string(), DocVal::s(t))]))
+            .collect();
+        for cond in ["N or X or Y", "X or Y or N", "T and X and Y", "not (X or N or Y)"] {
+            let mk = |first_ci: bool| {
+                let (x, y) = if first_ci { (format!("i{p}"), p.to_string()) } else { (p.to_string(), format!("i{p}")) };
+                format!(
+                    "detection:\n  X:\n    f1: '{x}'\n  Y:\n    f1: '{y}'\n  N:\n    f1: nomatch\n  T:\n    f1: '*'\n  condition: {cond}\ntrue_positives: []\ntrue_negatives: []\n"
+                )
+            };
+            out.push((mk(false), mk(true), docs.clone()));
+        }
+    }
+    out
+}
+
+/// The fixed same-field documents plus, for every list in the rule, values built from all of its
+/// needles at once (so that `all(..)` / `of(.., n)` over the list can be true), as written and with
+/// the case swapped.
+pub fn same_field_docs_for(rule: &RuleSpec, field: &str) -> Vec<DObj> {
+    let mut out = same_field_docs(field);
+    let mut add = |t: String| {
+        let swapped: String = t
+            .chars()
+            .map(|c| if c.is_ascii_lowercase() { c.to_ascii_uppercase() } else { c.to_ascii_lowercase() })
+            .collect();
+        for v in [t, swapped] {
+            out.push(DObj(vec![(field.to_string(), DocVal::Str(v))]));
+        }
+    };
+    for (_, body) in &rule.idents {
+        for block in body.blocks() {
+            for e in &block.0 {
+                if let ValSpec::List(ms) = &e.val {
+                    let mut prefix = None;
+                    let mut suffix = None;
+                    let mut middle: Vec<String> = vec![];
+                    for m in ms {
+                        if let ValSpec::Str(t) = m {
+                            let t = t.strip_prefix('i').filter(|r| !r.is_empty()).unwrap_or(t);
+                            let core = t.trim_start_matches('?').trim_matches('*').to_string();
+                            if t.ends_with('*') && !t.starts_with('*') {
+                                prefix.get_or_insert(core);
+                            } else if t.starts_with('*') && !t.ends_with('*') {
+                                suffix.get_or_insert(core);
+                            } else {
+                                middle.push(core);
+                            }
+                        }
+                    }
+                    let text = format!("{}{}{}", prefix.unwrap_or_default(), middle.join(" "), suffix.unwrap_or_default());
+                    if !text.is_empty() {
+                        add(text);
+                    }
+                }
+            }
+        }
+    }
+    out
 }
 
 /// Wide or-groups: many entries on one field (around the optimiser's 256-entry matrix guard) or
@@ -941,9 +1129,13 @@ pub fn rule_wide() -> BoxedStrategy<RuleSpec> {
 
 /// Sizes just above 128 and 256 are where a column key needs a second byte / no longer fits one.
 pub fn rule_wide_sized(sizes: Vec<usize>) -> BoxedStrategy<RuleSpec> {
+    rule_wide_with(sizes, vec![0u8, 1, 1, 1, 2, 3])
+}
+
+pub fn rule_wide_with(sizes: Vec<usize>, kinds: Vec<u8>) -> BoxedStrategy<RuleSpec> {
     (
         prop::sample::select(sizes),
-        prop::sample::select(vec![0u8, 1, 1, 1, 2]),
+        prop::sample::select(kinds),
         any::<bool>(),
         any::<u8>(),
     )
@@ -958,6 +1150,15 @@ pub fn rule_wide_sized(sizes: Vec<usize>) -> BoxedStrategy<RuleSpec> {
                         Entry { key: KeySpec::plain(&format!("w{i}")), val: ValSpec::Int((i % 7) as i64) },
                         Entry { key: KeySpec::plain(&format!("w{}", (i + 1) % n)), val: ValSpec::Str("a".into()) },
                     ]),
+                    // one field in every mapping (n entries), a second one only in every ninth, so
+                    // that the two fall on different sides of the optimiser's 256-entry guard
+                    3 => {
+                        let mut es = vec![Entry { key: KeySpec::plain("n1"), val: ValSpec::Int(i as i64) }];
+                        if i % 9 == 0 {
+                            es.push(Entry { key: KeySpec::plain("f1"), val: ValSpec::Str(format!("a{}", i % 4)) });
+                        }
+                        Block(es)
+                    }
                     // conjunctions over two shared fields
                     _ => Block(vec![
                         Entry { key: KeySpec::plain("n1"), val: ValSpec::Int((i / 2) as i64) },
